@@ -274,11 +274,15 @@ fn clone_rpc(m: &Rpc) -> Rpc {
 
 /// one generated direct case
 fn gen_direct(rec: &mut Recorder, case: u64, rng: &mut Rng, tier: &str) {
-    let n = *rng.pick(&[3usize, 3, 3, 3, 5, 5, 4, 2, 1]);
+    let mut n = *rng.pick(&[3usize, 3, 3, 3, 5, 5, 4, 2, 1]);
     // schedule style
-    let style = rng.below(5);
+    let style = rng.below(6);
+    if style == 5 {
+        n = *rng.pick(&[5usize, 5, 4]);
+    }
     let (p_del, p_dup, p_drop, p_el, p_hb, p_req) = match style {
         4 => (85, 3, 0, 2, 50, 45), // divergence: isolate the leader, let another one win, heal
+        5 => (85, 2, 0, 3, 60, 25), // figure-8 prefix (previous-term entry on a majority), then calm
         0 => (80, 2, 1, 4, 45, 30),   // calm: elections settle, entries replicate and commit
         1 => (50, 15, 8, 12, 35, 30), // lossy, duplicating
         2 => (35, 10, 3, 25, 30, 30), // election storms
@@ -294,6 +298,80 @@ fn gen_direct(rec: &mut Recorder, case: u64, rng: &mut Rng, tier: &str) {
     let mut isolated: Vec<bool> = vec![false; n];
     let mut committed_any = false;
     let mut leader_changes = 0;
+    if style == 5 {
+        // RAFT figure 8 / §5.4.2: an entry of an OLD term ends up replicated on a majority under a NEW
+        // leader that has no entry of its own term yet; it must not commit by counting replicas.
+        let all_others = |me: u32| -> Vec<MemberId<Replica>> { (0..n as u32).filter(|m| *m != me).map(mid).collect() };
+        let mut run = |d: &mut Direct,
+                       rec: &mut Recorder,
+                       pool: &mut Vec<(u32, u32, Rpc)>,
+                       me: u32,
+                       el: bool,
+                       hb: bool,
+                       reqs: Vec<String>,
+                       only_from: Option<u32>| {
+            let mut batch = vec![];
+            let mut keep = vec![];
+            for (to, from, m) in pool.drain(..) {
+                if to == me && only_from.map_or(true, |f| f == from) {
+                    batch.push((mid(from), m));
+                } else {
+                    keep.push((to, from, m));
+                }
+            }
+            *pool = keep;
+            let out = d.step(
+                rec,
+                RaftStepInput {
+                    me: mid(me),
+                    other_members: all_others(me),
+                    cluster_size: n,
+                    election_timer_fired: el,
+                    heartbeat_timer_fired: hb,
+                    requests: reqs,
+                    messages: batch,
+                },
+            );
+            pool.extend(out);
+        };
+        let a = rng.below(n as u64) as u32; // first leader
+        let b = (a + 1 + rng.below(n as u64 - 1) as u32) % n as u32; // the only member that gets the entry
+        // a wins a term
+        run(&mut d, rec, &mut pool, a, true, false, vec![], None);
+        for m in 0..n as u32 {
+            if m != a {
+                run(&mut d, rec, &mut pool, m, false, false, vec![], None);
+            }
+        }
+        run(&mut d, rec, &mut pool, a, false, false, vec![], None);
+        // a appends 1-2 entries and replicates them to b only; then a crashes (fail-stop)
+        let k = rng.range(1, 2);
+        let reqs: Vec<String> = (0..k).map(|_| { let p = next_payload.to_string(); next_payload += 1; p }).collect();
+        run(&mut d, rec, &mut pool, a, false, true, reqs, None);
+        run(&mut d, rec, &mut pool, b, false, false, vec![], Some(a));
+        pool.retain(|(to, from, _)| *to != a && *from != a);
+        crashed[a as usize] = true;
+        rec.count("fig8-prefix");
+        // b campaigns (first interrupt may be consumed by heartbeat suppression) and wins with the old entry
+        run(&mut d, rec, &mut pool, b, true, false, vec![], None);
+        run(&mut d, rec, &mut pool, b, true, false, vec![], None);
+        for m in 0..n as u32 {
+            if m != a && m != b {
+                run(&mut d, rec, &mut pool, m, false, false, vec![], None);
+            }
+        }
+        run(&mut d, rec, &mut pool, b, false, false, vec![], None);
+        // heartbeat rounds WITHOUT new requests: the old-term entry reaches a majority and is acknowledged
+        for _ in 0..rng.range(2, 3) {
+            run(&mut d, rec, &mut pool, b, false, true, vec![], None);
+            for m in 0..n as u32 {
+                if m != a && m != b {
+                    run(&mut d, rec, &mut pool, m, false, false, vec![], None);
+                }
+            }
+            run(&mut d, rec, &mut pool, b, false, false, vec![], None);
+        }
+    }
     for stepno in 0..steps {
         if d.dead {
             break;
